@@ -145,6 +145,40 @@ theorem checkEvents_complete {s : St} (h : Inv s) :
       rw [hfr.1] at this
       omega
 
+/-! ### at most once -/
+
+/-- An event dequeued by an operation is not dequeued again by any continuation of the history. -/
+theorem dequeued_once {s : St} (h : Inv s) (op : Op) (e : Ev) (he : e ∈ (step s op).2.dequeued) (ops : List Op) :
+    ∀ x ∈ dequeuedIn (step s op).1 ops, x.id ≠ e.id := by
+  obtain ⟨hn, _, _, hd, _⟩ := step_origin s op
+  have hes : e ∈ s.tasks := hd e he
+  have hfresh := h.fresh e (List.mem_append_left _ hes)
+  have hnd : (s.tasks.map (·.id)).Nodup := by
+    have := h.nodup
+    rw [List.map_append, List.nodup_append] at this
+    exact this.1
+  -- the list before is `dequeued ++ remaining`
+  have hsplit : (step s op).2.dequeued ++ (step s op).1.tasks = s.tasks := by
+    cases op with
+    | check => exact checkEvents_prefix s
+    | loop => exact (runOnce_spec s).1
+    | clock d => exact absurd he List.not_mem_nil
+    | sched f a d w c => exact absurd he List.not_mem_nil
+    | cancel f a => exact absurd he List.not_mem_nil
+    | dispatch => exact absurd he List.not_mem_nil
+    | remaining => exact absurd he List.not_mem_nil
+    | find f a => exact absurd he List.not_mem_nil
+    | invalidate a => exact absurd he List.not_mem_nil
+    | pending => exact absurd he List.not_mem_nil
+  intro x hx hid
+  rcases (later_origin (step s op).1 ops).1 x hx with hx | hx
+  · have hxs : x ∈ s.tasks := by rw [← hsplit]; exact List.mem_append_right _ hx
+    have hxe := eq_of_id_eq hnd hxs hes hid
+    subst hxe
+    rw [← hsplit, List.map_append, List.nodup_append] at hnd
+    exact hnd.2.2 x.id (List.mem_map.mpr ⟨x, he, rfl⟩) x.id (List.mem_map.mpr ⟨x, hx, rfl⟩) rfl
+  · omega
+
 /-! ### handler time when the clock does not go back -/
 
 /-- Operations that do not step the clock back. -/
